@@ -339,11 +339,14 @@ run): every status send sits in a `select` next to `<-ctx.Done()` (the one bare 
 dead code), the collector has a `ctx.Done()` arm and tests `ok`, `close` follows `wg.Wait()` and
 occurs once, `wg.Add(1)` precedes every root call and every spawn, `doProcess` defers `wg.Done()`,
 the range call-back tests the context before starting a root, roots run inline and children in
-goroutines, the child receives the event `Process` returned, the sink flag comes from `Type()`. -/
+goroutines, the child receives the event `Process` returned, the sink flag comes from `Type()`; the
+collector's context arm contains nothing that can block (so `collectCtx` is Send's return), and the
+error / dropped-event exits of `doProcess` consist of the guarded report alone. -/
 theorem on_source : Evl.Generated.dispatchFacts =
     { sendsGuardedByCtx := true, noLiveBareSend := true, collectorHasCtxArm := true, collectorChecksClosed := true,
       closeAfterWait := true, closeOnce := true, addBeforeRootCall := true, addBeforeSpawn := true,
       doProcessDefersDone := true, rangeChecksCtxBeforeStart := true, childGetsReturnedEvent := true,
       sinkFlagFromType := true, childrenSpawnedWithGo := true, rootCalledInline := true,
-      errorEndsTraversalFirst := true } := by decide
+      errorEndsTraversalFirst := true, ctxArmReturnsAtOnce := true, errorAlwaysReported := true,
+      dropAlwaysReported := true } := by decide
 end Evl.C03
